@@ -18,8 +18,8 @@
 
   The two guards of the current tree in a history (`macho_resign_scan_guard_inert`, `macho_round_guard`): on relic's own output
   the slack test of `scanFile` (fix F-MACHO-4) never fires — the image carries an LC_CODE_SIGNATURE command —, and the size
-  test of `Sign` (fix F-MACHO-3) either refuses the round outright (slot has to grow beyond 10^7 bytes: nothing is written,
-  the artifact stays as it was) or leaves the round exactly as described by `LState.resign`.
+  test of `Sign` (fixes F-MACHO-3, F-MACHO-3b) either refuses the round outright (the slot to be used exceeds 10^7 bytes:
+  nothing is written, the artifact stays as it was) or leaves the round exactly as described by `LState.resign`.
 -/
 import Relic.Proofs.MachOLinkedit
 import Relic.Proofs.MachOGuards
@@ -325,9 +325,10 @@ theorem macho_resign_scan_guard_inert (f : Bytes) (m : Markers) (h : scanOrig f 
   (scan_ok_iff f m).mpr ⟨h, fun c => hcs c.2⟩
 
 /-- **macho_round_guard.**  One signing round of the current tree on an image its scan accepts (estimate within int64):
-    either the size test of fix F-MACHO-3 fires — the slot would have to grow (`sigLen < estimate`) beyond 10^7 bytes — and
-    the round is refused before anything is patched, or the round is the one of the tree before the fix, i.e. the step
-    `LState.resign` (`patch_simulates_resign`). -/
+    either the size test of the fixes F-MACHO-3 / F-MACHO-3b fires — the slot the round would use (`regionOf`: the grown one
+    when `sigLen < estimate`, else the existing one) exceeds 10^7 bytes — and the round is refused before anything is
+    patched, or the round is the one of the tree before the fixes, i.e. the step `LState.resign` (`patch_simulates_resign`).
+    On relic's own output the existing slot is ≤ 10^7 bytes (`C01.macho_region_small`), so only growth can trigger it. -/
 theorem macho_round_guard (f : Bytes) (m : Markers) (hashSize entLen reqLen : Nat) (h : scan f = .ok m)
     (hr : ¬ estRange m hashSize) :
     (sizeGuard m (estI m hashSize entLen reqLen) ∧ plan f hashSize entLen reqLen = .err "signtoolarge") ∨
